@@ -139,6 +139,8 @@ func SolveAll(prelude func(*FuncResult) string, frs []*FuncResult, pick func(*Ob
 			tmo := timeoutS
 			if o.IsCover || o.Canary {
 				tmo = 2 // vacuity guards: only an `unsat` answer matters
+			} else if o.ShortTimeout > 0 {
+				tmo = o.ShortTimeout
 			}
 			jobs = append(jobs, job{id, file, tmo})
 			byID[id] = o
